@@ -4,6 +4,7 @@ package c01
 
 import (
 	"context"
+	"fmt"
 	"runtime"
 	"strconv"
 	"sync"
@@ -333,4 +334,76 @@ func errStr(e error) string {
 		return "<nil>"
 	}
 	return e.Error()
+}
+
+// ---------------------------------------------------------------- C17: the duration is measured around the body, however it ends
+
+type fieldErrs []string
+
+func (f fieldErrs) Error() string { return "invalid" }
+
+func TestC17Measured(t *testing.T) {
+	o := kit.Get()
+	defer o.Close()
+	r := kit.NewRand(kit.Seed() + 171)
+	n := kit.N(60, 600)
+	for i := 0; i < n; i++ {
+		how := r.Intn(8)
+		spend := time.Duration(r.Range(300, 3000)) * time.Microsecond
+		var bodyNs int64
+		stats := &progress.Stats{}
+		m := runkit.NewMetrics(nil, true)
+		sc := &scenarios.Scenario{Name: "c17", ScenarioFn: func(*f1testing.T) f1testing.RunFn {
+			return func(t *f1testing.T) {
+				t0 := time.Now()
+				for time.Since(t0) < spend {
+					runtime.Gosched()
+				}
+				bodyNs = int64(time.Since(t0)) // the body's own clock, read just before it ends
+				switch how {
+				case 0, 1:
+				case 2:
+					t.Fail()
+				case 3:
+					t.FailNow()
+				case 4:
+					t.Fatalf("fatal")
+				case 5:
+					t.Require().Equal(1, 2)
+				case 6:
+					panic("a value")
+				default:
+					panic(fieldErrs{"x"})
+				}
+			}
+		}}
+		as := workers.NewActiveScenario(sc, m, stats, log.NewDiscardLogger(), logrus.New())
+		as.Setup()
+		st := as.VerifNewIterationState()
+		workers.VerifStateT(st).Reset("1")
+		t0 := time.Now()
+		crashed, pv := kit.Guard(func() { as.Run(st) })
+		outer := int64(time.Since(t0))
+		if crashed {
+			o.Fail("c17-worker-crash", "a panic escaped the iteration: "+kit.Str(fmt.Sprint(pv)))
+			continue
+		}
+		tot := stats.Total()
+		d := tot.SuccessfulIterationDurations
+		if how >= 2 {
+			d = tot.FailedIterationDurations
+		}
+		if d.Count != 1 {
+			o.Fail("c17-count", "one iteration (ending "+strconv.Itoa(how)+") was recorded "+strconv.FormatUint(d.Count, 10)+" times under its outcome")
+			continue
+		}
+		o.Count("body-ends-by", []string{"return", "return", "Fail+return", "FailNow", "Fatalf", "failed require", "panic(string)", "panic(slice error)"}[how])
+		tags := []string{"measured"}
+		if how >= 3 {
+			tags = append(tags, "nt")
+		}
+		o.Case("measured_ok", []string{kit.I(bodyNs), kit.I(int64(d.Min)), kit.I(outer)}, "T", tags...)
+		o.Case("measured_ok", []string{kit.I(bodyNs), kit.I(int64(d.Max)), kit.I(outer)}, "T", "measured")
+		o.Case("measured_ok", []string{kit.I(bodyNs), kit.I(int64(d.Average)), kit.I(outer)}, "T", "measured")
+	}
 }
